@@ -91,6 +91,20 @@ func DrawStructural(rt *rapid.T, o StructOpt) *Subject {
 			}
 		}
 	}
+	if env.SelfSlice != nil {
+		// the named type or the unnamed slice of it: one of them (goderive takes them for one type, being mutually assignable)
+		cands := []*progen.Type{progen.NamedT(env.SelfSlice), progen.SliceOf(progen.NamedT(env.SelfSlice))}
+		if rapid.Bool().Draw(rt, "selfslice-unnamed") {
+			cands[0], cands[1] = cands[1], cands[0]
+		}
+		for _, t := range cands {
+			k := progen.AssignKey(t)
+			if !seen[k] && (o.TypeOK == nil || o.TypeOK(t)) {
+				seen[k] = true
+				types = append(types, t)
+			}
+		}
+	}
 	if len(env.Twins) == 2 {
 		// both same-spelled types, the plain one first, on their own and as elements
 		for _, t := range []*progen.Type{progen.NamedT(env.Twins[0]), progen.NamedT(env.Twins[1]), progen.PtrTo(progen.NamedT(env.Twins[0])), progen.PtrTo(progen.NamedT(env.Twins[1]))} {
